@@ -204,7 +204,12 @@ func doCheck(prop, tier string, seed uint64, runsOverride, budgetOverride int) i
 	mine := map[string]*found{}
 	others := map[string]int{}
 	var harnessTrouble []string
-	fanOut(cfgs, 90*time.Second, deadline, func(o *runOut) {
+	var phase1 []*runOut
+	crashPoints := 0
+	each := func(o *runOut) {
+		if pl.Restart && o.cfg["restore"] == nil {
+			phase1 = append(phase1, o)
+		}
 		t.add(o, prop)
 		if o.harness != "" {
 			harnessTrouble = append(harnessTrouble, fmt.Sprintf("seed %v: %s", o.cfg["seed"], o.harness))
@@ -240,7 +245,27 @@ func doCheck(prop, tier string, seed uint64, runsOverride, budgetOverride int) i
 			}
 			f.count++
 		}
-	})
+	}
+	fanOut(cfgs, 90*time.Second, deadline, each)
+	_ = crashPoints
+	// restart recovery: every recorded crash point of the first phase becomes a run of its own that starts a fresh
+	// core (fresh process: no singleton survives), replays the frozen shim knowledge and carries on
+	if pl.Restart {
+		var cfgs2 []map[string]any
+		sm2 := seed ^ 0x5eed
+		for _, o := range phase1 {
+			if o.res == nil {
+				continue
+			}
+			for _, fz := range o.res.Frozen {
+				c := map[string]any{"seed": splitmix(&sm2) >> 12, "profile": o.cfg["profile"], "prop": prop, "steps": 25, "policy": "rtc",
+					"faults": map[string]bool{"confirm_late": true}, "fault_rate": 0.03, "restore": fz, "_variant": fmt.Sprint(o.cfg["_variant"]) + "+restart"}
+				cfgs2 = append(cfgs2, c)
+			}
+		}
+		crashPoints = len(cfgs2)
+		fanOut(cfgs2, 90*time.Second, deadline, each)
+	}
 	if len(harnessTrouble) > 0 {
 		sort.Strings(harnessTrouble)
 		max := len(harnessTrouble)
